@@ -235,7 +235,7 @@ func (x *Exec) evOf(st *State, sl Term) Term {
 	arr := sel(x.heapGet(st, hn, hs), sliceRef(sl))
 	off := sliceOff(sl)
 	at := func(i int64) string {
-		return sel(arr, T(SBV(64), "(bvadd %s %s)", off.S, bvInt(64, i).S)).S
+		return sel(arr, bvadd64(off, bvInt(64, i))).S
 	}
 	return T(SEv, "(mk_Ev %s %s %s %s)", sliceLen(sl).S, at(0), at(1), at(2))
 }
